@@ -11,6 +11,10 @@ pub mod c03;
 pub mod c04;
 pub mod c05;
 pub mod c08;
+pub mod c09;
+pub mod c09wire;
+pub mod c10;
+pub mod c11;
 pub mod c13;
 pub mod c14;
 pub mod c15;
@@ -82,6 +86,9 @@ pub fn get(id: &str, tier: Tier) -> Option<Check> {
         "C04" => c04::check(tier),
         "C05" => c05::check(tier),
         "C08" => c08::check(tier),
+        "C09" => c09::check(tier),
+        "C10" => c10::check(tier),
+        "C11" => c11::check(tier),
         "C13" => c13::check(tier),
         "C14" => c14::check(tier),
         "C15" => c15::check(tier),
@@ -92,7 +99,7 @@ pub fn get(id: &str, tier: Tier) -> Option<Check> {
     })
 }
 
-pub const ALL: &[&str] = &["C02", "C03", "C04", "C05", "C08", "C13", "C14", "C15", "C16", "C18", "C20"];
+pub const ALL: &[&str] = &["C02", "C03", "C04", "C05", "C08", "C09", "C10", "C11", "C13", "C14", "C15", "C16", "C18", "C20"];
 
 /// Stream-local seed for scenario `idx`.
 pub fn sseed(ctx: &Ctx, stream: &str, idx: u64) -> u64 {
